@@ -118,23 +118,27 @@ class FrequencyDomainSolution(CircuitSolution):
         self._solutions = np.array([ComplexSolution(circuit=self.circuit, solver=self.solver, w=w, peak_values=True) for w in self.w])
         if not self.one_sided:
             self.w = np.concatenate((-self.w[-1:0:-1], self.w))
-            self._solutions = 1/2*np.concatenate((np.conj(self._solutions[-1:0:-1]), self._solutions))
+
+    def _spectrum(self, one_sided_values: np.ndarray) -> np.ndarray:
+        if self.one_sided:
+            return one_sided_values
+        return np.concatenate((np.conj(one_sided_values[-1:0:-1])/2, one_sided_values[:1], one_sided_values[1:]/2))
 
     def get_voltage(self, component_id: str) -> FrequencyDomainSeries:
         voltages = np.array([solution.get_voltage(component_id) for solution in self._solutions])
-        return np.array(self.w), voltages
+        return np.array(self.w), self._spectrum(voltages)
 
     def get_current(self, component_id: str) -> FrequencyDomainSeries:
         currents = np.array([solution.get_current(component_id) for solution in self._solutions])
-        return np.array(self.w), currents
+        return np.array(self.w), self._spectrum(currents)
 
     def get_potential(self, node_id: str) -> FrequencyDomainSeries:
         potentials = np.array([solution.get_potential(node_id) for solution in self._solutions])
-        return np.array(self.w), potentials
+        return np.array(self.w), self._spectrum(potentials)
 
     def get_power(self, component_id: str) -> FrequencyDomainSeries:
         power = np.array([solution.get_power(component_id) for solution in self._solutions])
-        return np.array(self.w), power
+        return np.array(self.w), self._spectrum(power)
 
 @dataclass
 class TransientSolution(CircuitSolution):
